@@ -40,10 +40,10 @@ CHECKS = {
          "The race detector observes the real gbn code while several goroutines call Send/Recv/Close/timeout setters and ping, pong and resend timers share instants with packet arrivals; any report with a gbn frame, any worker death or any non-linearizable history is a violation. A direct stress of the real send queue (with syncer and timeout manager) in the two roles of the connection's loops adds the lock-order deadlocks of queue/syncer to the two-census rule.",
          "race detector sees only executed accesses; porcupine Unknown = inconclusive", "3/C18", True),
  "C19": ("exploration", "runtime monitoring: round-trip oracle over the real codecs, exhaustive on all one-byte fields and on all byte strings up to 3 (quick) / 4 (thorough) bytes",
-         "Every field value x flag x payload-length class is serialised and deserialised (fresh and reused targets); every short byte string that deserialises is re-serialised and decoded again. Serialised byte slices are kept and compared after later Serialize calls (retransmission buffers).",
+         "Every field value x flag x payload-length class is serialised and deserialised (fresh and reused targets); every short byte string that deserialises is re-serialised and decoded again. Serialised byte slices are kept and compared after later Serialize calls (retransmission buffers); one packet object is serialised again after its fields changed.",
          "semantic equality (empty payload == nil payload)", "3/C19", True),
  "C20": ("exploration", "runtime monitoring: shadow-state monitor derived from the statement, compared with the real TimeoutManager after every event of PRNG histories in virtual time",
-         "Histories of Sent/Received events with arbitrary virtual gaps; the monitor checks the floor, where the value may change, the exact recomputed value and the one-step-per-interval boost rule.",
+         "Histories of Sent/Received events with arbitrary virtual gaps; the monitor checks the floor, where the value may change, the exact recomputed value and the one-step-per-interval boost rule. Live slices decide the same rule where the connection itself reports what is a retransmission: handshakes whose first SYNs are lost, and NACK-driven retransmissions with late acknowledgements.",
          "duration comparison with 1e-5 relative tolerance", "3/C20", True),
  "C03": ("exploration", "runtime monitoring: real noise Machines over a recording duplex; mismatch cases (single-bit passphrase differences, wrong stored keys) x version ranges x payload sizes with a matching-secret control; oracles on what the responder wrote, both results, snapshots and ConnData",
          "Every mismatch case is paired with its matching control so that the monitor cannot pass vacuously; the responder's written byte count is the observable form of 'auth payload never released'. One case in eight is a sequence on the same ConnData objects (pairing, then another static key plus the passphrase in both roles, then the reconnect control): the stored-at-pairing-time half of the statement. After the pairing further first-time clients are served from the same passphrase buffer; handshake read deadlines on a transport that stays open must surface as errors. Sequences on one NoiseGrpcConn credentials object (pairing whose deadline reset fails, passphrase-only intruder, reconnect) and act ones of the key-based pattern forged from public keys alone against a responder whose signer works or fails.",
@@ -55,7 +55,7 @@ CHECKS = {
          "Sessions run in parallel with PRNG write/read-buffer sizes and relay fault profiles; a quarter of the cases are sessions of a real grpc.Server / grpc.ClientConn pair over the same stack (reply-matches-request oracle); safety oracles are time-independent; a progress miss must reproduce alone with a 300 s allowance before it counts.",
          "relay is a model of aperture's hashmail server; real-time progress verdicts follow DESIGN 1.3", "3/C05", True),
  "C08": ("exploration", "runtime monitoring: (key, nonce) registry read through the hook before every write, lock-step rotation comparison, ciphertext distinctness and plaintext-marker scan over thousands of records with PRNG interleaving of the two directions",
-         "Up to 6000 records per direction (12 rotations) with bursts that cross rotation boundaries in both directions while records are in flight. A third of the sessions flush through a writer that times out inside records, with reads of the other direction and refused writes in between.",
+         "Up to 6000 records per direction (12 rotations) with bursts that cross rotation boundaries in both directions while records are in flight. A third of the sessions flush through a writer that times out inside records, with reads of the other direction and refused writes in between. Results of ReadMessage are kept and looked at again after later records.",
          "observable secrecy only", "3/C08", True),
  "C11": ("exploration", "runtime monitoring in real time: scripted sessions over real Server.Accept / Client.Dial with gRPC-like drivers on an in-memory relay; exclusivity checked at every hand-out plus porcupine one-slot-lock model; rendezvous ids read from connection addresses and relay log; intruder and outdated-client steps; raw partial-read generations",
          "Close-by-client / close-by-server / relay-failure / idle events in PRNG order, each followed by an echo on the current or a fresh connection; after pairing every connection must live at the key-derived rendezvous. Stream closes that report errors, a dialer in back-off while a malformed packet reaches the refreshed listener, per-attempt dial contexts cancelled as grpc does.",
